@@ -182,7 +182,8 @@ Record dcfg := {
   d_encoding : bool;                          (* Container.EnableContentEncoding *)
   d_recover : bool;                           (* !doNotRecover *)
   d_recover_script : list action;             (* the RecoverHandler *)
-  d_condpanic : list Z                        (* routes whose last If-condition panics on requests marked X-Cond-Panic: 1 *)
+  d_condpanic : list Z;                       (* routes whose last If-condition panics on requests marked X-Cond-Panic: 1 *)
+  d_plain : list (str * (bool * list action)) (* Container.Handle / HandleWithFilter: pattern -> (with filters, what the handler does) *)
 }.
 
 Fixpoint zassoc {A} (k : Z) (l : list (Z * A)) : option A :=
@@ -290,18 +291,41 @@ Definition dispatch (cfg : dcfg) (req : request) (already : bool) (s : rstate) :
   | Panicked m s' => Panicked m (close_comp s')
   end.
 
-(* container.go:313 ServeHTTP (the mux is taken to hand every request to dispatch;
-   registration and the mux itself are the subject of C11) *)
+(* container.go:372 Handle (and :415 HandleWithFilter): what the mux runs for a plain handler.
+   No recovery here by construction: a panic propagates, the deferred Close still runs. *)
+Definition handle_plain (cfg : dcfg) (with_filters : bool) (script : list action) (req : request) (s : rstate) : res :=
+  let already := match st_comp s with Some _ => true | None => false end in
+  let s1 := if already then s
+            else if d_encoding cfg then match wants_compressed req s with Some c => install c s | None => s end
+            else s in
+  let r := match with_filters, d_cfilters cfg with
+           | true, _ :: _ => run_chain (d_cfilters cfg) (run_actions script) s1
+           | _, _ => run_actions script s1
+           end in
+  match r with
+  | Done s' => Done (close_comp s')
+  | Panicked m s' => Panicked m (close_comp s')
+  end.
+
+(* what the ServeMux hands the request to: a plain handler registered on exactly this path, else dispatch
+   (every table of this domain has a service on "/"; registration and the mux itself are the subject of C11) *)
+Definition mux_target (cfg : dcfg) (req : request) (already : bool) (s : rstate) : res :=
+  match assoc (rq_path req) (d_plain cfg) with
+  | Some (wf, script) => handle_plain cfg wf script req s
+  | None => dispatch cfg req already s
+  end.
+
+(* container.go:328 ServeHTTP *)
 Definition serve (cfg : dcfg) (en : entry) (req : request) (s : rstate) : res :=
   match en with
   | EDispatch => dispatch cfg req false s
   | EServeHTTP =>
-      if negb (d_encoding cfg) then dispatch cfg req false s
+      if negb (d_encoding cfg) then mux_target cfg req false s
       else
         let s1 := match wants_compressed req s with Some c => install c s | None => s end in
         let already := match st_comp s1 with Some _ => true | None => false end in
         (* deferred Close of ServeHTTP: a second Close is refused *)
-        match dispatch cfg req already s1 with
+        match mux_target cfg req already s1 with
         | Done s' => Done (close_comp s')
         | Panicked m s' => Panicked m (close_comp s')
         end
